@@ -98,6 +98,30 @@ fn search(algebra: bool, cycle: bool) {
         let _ = it.eval_import_set(set);
         if !it.imported_library.is_empty() && bad.len() < 4 { bad.push(format!("{:?}: the in-progress set is not empty afterwards", set.data)); }
     }
+    // ---- C12: several import sets in one declaration contribute the union (a later set wins on a shared name) ----
+    if algebra {
+        let s = |x: &str| x.to_string();
+        let only = |names: Vec<&str>| ImportSetBody::Only(Box::new(base_import()), names.into_iter().map(|x| x.to_string()).collect()).no_locate();
+        let decl = ImportDeclaration(vec![
+            only(vec!["car", "cons"]),
+            ImportSetBody::Prefix(Box::new(only(vec!["cdr"])), s("p-")).no_locate(),
+            ImportSetBody::Rename(Box::new(only(vec!["cdr"])), vec![(s("cdr"), s("car"))]).no_locate(),   // rebinds car to cdr
+        ]);
+        let mut it2 = Interpreter::<f32>::default();
+        let env = it2.env.clone();
+        n += 1;
+        match it2.eval_import(&decl, env.clone()) {
+            Err(e) => bad.push(format!("a declaration with three import sets fails: {}", e)),
+            Ok(()) => {
+                let has = |name: &str| env.get(name).is_some();
+                let car_is_cdr = match (env.get("car"), env.get("p-cdr")) { (Some(a), Some(b)) => format!("{:?}", *a) == format!("{:?}", *b), _ => false };
+                if !(has("car") && has("cons") && has("p-cdr") && !has("cdr") && !has("vector-ref") && car_is_cdr) && bad.len() < 4 {
+                    bad.push(format!("(import (only B car cons) (prefix (only B cdr) p-) (rename (only B cdr) (cdr car))): car {} cons {} p-cdr {} cdr {} vector-ref {}, car is the later set's cdr: {}",
+                                     has("car"), has("cons"), has("p-cdr"), has("cdr"), has("vector-ref"), car_is_cdr));
+                }
+            }
+        }
+    }
     // ---- C14: failed imports leave no trace ----
     let missing = || -> ImportSet { ImportSetBody::Direct(library_name!["no", "such", "lib"].into()).no_locate() };
     for wrap in 0..3 {
